@@ -10,6 +10,7 @@ Idealised generator.  A generator is a *stream* of outputs (for numpy's legacy g
 the sequence of Gaussian variates `np.random.normal / multivariate_normal` hand out) together with a
 position.  Which stream a process draws from:
   `parent`       the global generator of the process that calls `run`, as seeded by the user;
+  `server`       the global generator of a fork server that has numpy preloaded (inherited by all its workers)
   `fresh w`      the global generator of worker `w` of a pool started with `spawn` / `forkserver`:
                  a new interpreter seeds it from OS entropy;
   `child e i`    what `np.random.seed(args["seed"])` selects in the repaired code: the `i`-th child of
@@ -51,6 +52,7 @@ inductive Stream where
   | parent
   | fresh (w : Nat)
   | child (e i : Nat)
+  | server
   deriving DecidableEq, Repr
 
 /-- state of a process's global generator: a stream and the position of the next output -/
@@ -78,10 +80,14 @@ def Src.disjointB (a b : Src) : Bool :=
   a.stream != b.stream || a.len == 0 || b.len == 0 ||
     decide (a.start + a.len ≤ b.start) || decide (b.start + b.len ≤ a.start)
 
-/-- process start method of the pool (`forkserver` behaves like `spawn`: new interpreters) -/
+/-- process start method of the pool.  `forkserver` is the fork server with numpy preloaded
+(`multiprocessing.set_forkserver_preload`, the intended use of that start method): every worker is forked from the
+server and inherits the server's one generator state (stream `server`, OS-seeded when the server imported numpy);
+without the preload every worker imports numpy itself and `forkserver` behaves like `spawn` -/
 inductive StartMethod where
   | fork
   | spawn
+  | forkserver
   deriving DecidableEq, Repr
 
 /-- one entry of `arg_list`, as far as randomness is concerned: the shot's number and the optional
@@ -133,6 +139,7 @@ def workerInit (start : StartMethod) (parentAtFork : Gen) (w : Nat) : Gen :=
   match start with
   | .fork => parentAtFork
   | .spawn => ⟨.fresh w, 0⟩
+  | .forkserver => ⟨.server, 0⟩
 
 /-- the pool at work: batches complete in the order `order`; batch `c` runs on worker `worker[c]`,
 which continues with the generator state its previous batch left behind (`gens`) -/
